@@ -66,7 +66,7 @@ theorem parseNumRange_toChars (r : Range) (hw : r.WF) : parseNumRange r.toChars 
     unfold parseNumRange
     rw [cutColon_append _ _ (hd a)]
     simp only [parseNum_digits a (by omega) hw.1, parseNum_star]
-    simp
+    simp [h0]
   · rw [e]
     simp only at h0 h1 h2 ⊢
     unfold parseNumRange
